@@ -80,6 +80,9 @@ def run(ctx, R):
         v1model.c06_x(ctx, R)
     except ImportError:
         R.assumptions.append('C06.X v1 side (accept requires token 0 == "PROXY") not decided by this build')
+    if ctx.tier == 'thorough':
+        import witness
+        witness.run(ctx, R, 'C06.E6')
     # C06.P purity
     R.inst('C06.P', 'no-statics', len(ctx.fx.raw['statics']) == 0, expected='0 statics', found=str(len(ctx.fx.raw['statics'])), nontrivial=False)
     R.inst('C06.P', 'no-unsafe', ctx.fx.unsafe_blocks == 0, expected='0 unsafe blocks', found=str(ctx.fx.unsafe_blocks), nontrivial=False)
